@@ -48,7 +48,7 @@ def gen_doc(rng):
 
 class Engine(EngineBase):
     def budget(self, tier):
-        return (1000, 50.0) if tier == "quick" else (40000, 900.0)
+        return (2000, 55.0) if tier == "quick" else (50000, 900.0)
 
     def rule(self):
         return ("seeded operation lists (<= 40) of item/attribute set, delete, update, setdefault, pop, clear, "
